@@ -756,4 +756,83 @@ def extra(rng, tier):
             if real != impl(line):
                 bad.append({"line": line, "out": real, "why": "output through the real thread pool differs from the "
                                                                "inlined run: %s" % impl(line)[:100]})
-    return {"violations": bad, "threadpool_ops": n}
+    hist, nh = _rewritten_file_histories()
+    return {"violations": bad + hist, "threadpool_ops": n, "rewritten_file_histories": nh}
+
+
+def _rewritten_file_histories():
+    """If-Range over a history: a client holds the validator of an earlier state of the file; the file is rewritten in
+    place (same size; same second or a later one; the modification time differs), and the client asks for a range
+    `If-Range: <old validator>`.  Range may be honoured only if that is the file's CURRENT validator - it is not, the
+    bytes changed - so the answer is the whole new file (200), never a 206 slice of the new bytes."""
+    import tempfile as _tf
+    out, n = [], 0
+    d = _tf.mkdtemp(prefix="verif-c02h-")
+    try:
+        for iface in ("wsgi", "asgi"):
+            for method in ("GET", "HEAD"):
+                for which in ("etag", "last-modified"):
+                    for dt_ns in (400_000_000, 3_000_000_000):
+                        if which == "last-modified" and dt_ns < 10 ** 9:
+                            continue      # an HTTP date cannot tell two instants of one second apart
+                        n += 1
+                        path = os.path.join(d, "h-%s-%s-%s-%d.bin" % (iface, method, which, dt_ns))
+                        t0 = 1_700_000_000 * 10 ** 9 + 100_000_000
+                        with open(path, "wb") as f:
+                            f.write(b"A" * 64)
+                        os.utime(path, ns=(t0, t0))
+                        st1, h1, _ = _plain_request(iface, path, "GET", None, None)
+                        with open(path, "wb") as f:
+                            f.write(b"B" * 64)
+                        os.utime(path, ns=(t0 + dt_ns, t0 + dt_ns))
+                        old = h1.get(which if which == "etag" else "last-modified")
+                        st2, h2, body2 = _plain_request(iface, path, method, "bytes=0-3", old)
+                        label = "history %s %s if-range=%s rewritten-after=%.1fs" % (iface, method, which, dt_ns / 1e9)
+                        if st1 != 200 or old is None:
+                            out.append({"line": label, "out": "%s %s" % (st1, h1), "why": "the first plain GET was not a 200 with a validator"})
+                        elif st2 != 200:
+                            out.append({"line": label, "out": "%s %s %r" % (st2, sorted(h2.items()), body2[:16]),
+                                        "why": "the file was rewritten (same size, modification time %+.1f s) after the client got "
+                                               "%s %s; Range with If-Range: <that value> was answered %s%s instead of 200 with the "
+                                               "whole current file" % (dt_ns / 1e9, which, old, st2,
+                                                                       " (the validator sent now is still %s)" % h2.get(which)
+                                                                       if h2.get(which) == old else "")})
+                        elif method == "GET" and body2 != b"B" * 64:
+                            out.append({"line": label, "out": "%s %r" % (st2, body2[:16]), "why": "200 without the whole current file"})
+    finally:
+        shutil.rmtree(d, ignore_errors=True)
+    return out, n
+
+
+def _plain_request(iface, path, method, range_, if_range):
+    """(status, {lower-case header: value}, body) of a fresh FileResponse(path) that stats the file itself"""
+    if iface == "wsgi":
+        environ = {"REQUEST_METHOD": method}
+        if range_ is not None:
+            environ["HTTP_RANGE"] = range_
+        if if_range is not None:
+            environ["HTTP_IF_RANGE"] = if_range
+        got = {}
+        it = wsgi_responses.FileResponse(path)(environ, lambda s, h, e=None: got.update(status=s, headers=h))
+        body = b"".join(bytes(c) for c in it)
+        if hasattr(it, "close"):
+            it.close()
+        return int(got["status"].split(" ")[0]), {k.lower(): v for k, v in got["headers"]}, body
+    headers = []
+    if range_ is not None:
+        headers.append((b"range", range_.encode("latin-1")))
+    if if_range is not None:
+        headers.append((b"if-range", if_range.encode("latin-1")))
+    events = []
+
+    async def send(msg):
+        events.append(msg)
+
+    async def receive():
+        return {"type": "http.disconnect"}
+
+    loop().run_until_complete(asgi_responses.FileResponse(path)({"type": "http", "method": method, "headers": headers},
+                                                                receive, send))
+    start = [m for m in events if m["type"] == "http.response.start"][0]
+    body = b"".join(m.get("body", b"") for m in events if m["type"] == "http.response.body")
+    return start["status"], {k.decode("latin-1").lower(): v.decode("latin-1") for k, v in start["headers"]}, body
